@@ -542,6 +542,200 @@ theorem C03_too_many_parameters_confined {F} (env : Env F) (strict : Bool) (hcfg
   rw [show IStream.putback 59 (G (59 :: (sp.reverse ++ 41 :: (body.reverse ++ l))) rest sk) =
     G (sp.reverse ++ 41 :: (body.reverse ++ l)) (59 :: rest) sk from putback_good 59 _ rest sk]
 
+/-! ### too few parameters, from the record's text to its severity (`Flawed` derived) -/
+
+/-- the attribute loop over fewer parameters than the entity has attributes (each read where it stands with a known
+    severity), the list closed behind the last one, some attribute still to come that is not a redefining one: every
+    parameter's attribute gets its value, the others stay unset, "Missing attribute value[s]" - WARNING merged in -/
+theorem readAttrs_params_short {F} (env : Env F) (strict : Bool) (hcfg : env.cfg.missingCheckEverySecond = false)
+    (qs : List (Param F × Sev)) (hne : qs ≠ []) (hok : ∀ q ∈ qs, ParamRd env strict q.1 q.2)
+    (more : List AttrD) (hmore : ∃ b ∈ more, b.redefining = false) :
+    ∀ (err : Sev) (l : List Byte) (c : Byte) (sk : Bool) (rest : List Byte),
+      ∃ sk', (sk' = sk ∨ sk' = false) ∧
+        readAttrs env strict (qs.map (·.1.a) ++ more) err c (G l (renderParams (qs.map (·.1)) ++ rest) sk) =
+        .ok ⟨(accum err (qs.map (·.2))).greater .warning, qs.map (·.1.v) ++ defaults more,
+             G ((renderParams (qs.map (·.1))).reverse ++ l) rest sk', aaccum qs⟩ := by
+  have hmc : missingCheck env.cfg.missingCheckEverySecond more = true := by
+    rw [hcfg, missingCheck_every]
+    obtain ⟨b, hbm, hbr⟩ := hmore
+    exact List.any_eq_true.mpr ⟨b, hbm, by simp [hbr]⟩
+  induction qs with
+  | nil => exact absurd rfl hne
+  | cons q qs ih =>
+    intro err l c sk rest
+    obtain ⟨p, sev⟩ := q
+    obtain ⟨hred, ⟨c0, u0, htok, hc0, h47, h92⟩, hbef, hread⟩ : ParamRd env strict p sev := hok (p, sev) (by simp)
+    cases qs with
+    | nil =>
+      obtain ⟨sk', hsk, hr⟩ := hread (p.before.reverse ++ l) sk 41 rest (Or.inr rfl)
+      refine ⟨sk', hsk, ?_⟩
+      simp only [List.map_cons, List.map_nil, renderParams, List.cons_append, List.nil_append]
+      unfold readAttrs
+      have e1 : p.before ++ (p.tok ++ (p.after ++ [41])) ++ rest = p.before ++ c0 :: (u0 ++ (p.after ++ 41 :: rest)) := by
+        rw [htok]; simp
+      rw [e1, readTokenSeparator_seps p.before hbef l c0 _ sk hc0 h47 h92]
+      have e2 : c0 :: (u0 ++ (p.after ++ 41 :: rest)) = p.tok ++ (p.after ++ 41 :: rest) := by rw [htok]; simp
+      rw [e2]
+      simp only [hred, Bool.false_eq_true, if_false, hr, bind, Except.bind, pure, Except.pure]
+      rw [shiftInto_good c _ 41 rest sk' (by decide)]
+      simp [hmc, accum, htok, aaccum]
+    | cons q2 qs' =>
+      obtain ⟨sk1, hsk1, hr⟩ := hread (p.before.reverse ++ l) sk 44 (renderParams ((q2 :: qs').map (·.1)) ++ rest) (Or.inl rfl)
+      obtain ⟨sk', hsk', hrec⟩ := ih (by simp) (fun x hx => hok x (by simp [hx]))
+        (if sev.toInt ≤ Sev.usermsg.toInt then err.greater sev else err)
+        (44 :: (p.after.reverse ++ (p.tok.reverse ++ (p.before.reverse ++ l)))) 44 sk1 rest
+      refine ⟨sk', skflag_trans hsk1 hsk', ?_⟩
+      simp only [List.map_cons, renderParams, List.cons_append] at hrec ⊢
+      unfold readAttrs
+      have e1 : p.before ++ (p.tok ++ (p.after ++ 44 :: renderParams (q2.1 :: qs'.map (·.1)))) ++ rest =
+          p.before ++ c0 :: (u0 ++ (p.after ++ 44 :: (renderParams (q2.1 :: qs'.map (·.1)) ++ rest))) := by
+        rw [htok]; simp
+      rw [e1, readTokenSeparator_seps p.before hbef l c0 _ sk hc0 h47 h92]
+      have e2 : c0 :: (u0 ++ (p.after ++ 44 :: (renderParams (q2.1 :: qs'.map (·.1)) ++ rest))) =
+          p.tok ++ (p.after ++ 44 :: (renderParams (q2.1 :: qs'.map (·.1)) ++ rest)) := by rw [htok]; simp
+      rw [e2]
+      simp only [List.map_cons] at hr
+      simp only [hred, Bool.false_eq_true, if_false, hr, bind, Except.bind, pure, Except.pure]
+      rw [shiftInto_good c _ 44 _ sk1 (by decide)]
+      have e3 : (!((44 : Byte) == 44 || (44 : Byte) == 41)) = false := by decide
+      have e4 : ((44 : Byte) == 41) = false := by decide
+      simp only [e3, e4, Bool.false_eq_true, if_false]
+      rw [hrec]
+      simp [htok, accum, aaccum]
+
+/-! ### too many parameters, from the record's text to its severity (`Flawed` derived, not assumed) -/
+
+/-- a parameter list that is not closed: parameters separated by commas, nothing behind the last one -/
+def renderOpen {F} : List (Param F) → List Byte
+  | [] => []
+  | [p] => p.before ++ (p.tok ++ p.after)
+  | p :: q :: ps => p.before ++ (p.tok ++ (p.after ++ 44 :: renderOpen (q :: ps)))
+
+/-- the attribute loop over as many parameters as the entity has attributes (each read where it stands with a known
+    severity), followed by `,` and more text up to `)` blanks `;`: every attribute gets its value, then "No more attributes
+    were expected" - INPUT_ERROR merged into what the attributes reported - and the recovery scan leaves the stream at the `;` -/
+theorem readAttrs_params_extra {F} (env : Env F) (strict : Bool) (hk : env.cfg.recoveryKeepsSemicolon = true)
+    (qs : List (Param F × Sev)) (hne : qs ≠ []) (hok : ∀ q ∈ qs, ParamRd env strict q.1 q.2)
+    (body : List Byte) (hb : ∀ x ∈ body, x ≠ 41 ∧ (env.cfg.recoveryStopsAtSemicolon = true → x ≠ 39 ∧ x ≠ 59))
+    (sp : List Byte) (hsp : sp.all isSpace = true) :
+    ∀ (err : Sev) (l : List Byte) (c : Byte) (sk : Bool) (rest : List Byte),
+      ∃ sk', (sk' = sk ∨ sk' = false) ∧
+        readAttrs env strict (qs.map (·.1.a)) err c
+          (G l (renderOpen (qs.map (·.1)) ++ 44 :: (body ++ 41 :: (sp ++ 59 :: rest))) sk) =
+        .ok ⟨(accum err (qs.map (·.2))).greater .inputError, qs.map (·.1.v),
+             G (sp.reverse ++ 41 :: (body.reverse ++ 44 :: ((renderOpen (qs.map (·.1))).reverse ++ l))) (59 :: rest) sk', aaccum qs⟩ := by
+  induction qs with
+  | nil => exact absurd rfl hne
+  | cons q qs ih =>
+    intro err l c sk rest
+    obtain ⟨p, sev⟩ := q
+    obtain ⟨hred, ⟨c0, u0, htok, hc0, h47, h92⟩, hbef, hread⟩ : ParamRd env strict p sev := hok (p, sev) (by simp)
+    have e3 : (!((44 : Byte) == 44 || (44 : Byte) == 41)) = false := by decide
+    have e4 : ((44 : Byte) == 41) = false := by decide
+    cases qs with
+    | nil =>
+      obtain ⟨sk', hsk, hr⟩ := hread (p.before.reverse ++ l) sk 44 (body ++ 41 :: (sp ++ 59 :: rest)) (Or.inl rfl)
+      refine ⟨sk', hsk, ?_⟩
+      simp only [List.map_cons, List.map_nil, renderOpen]
+      unfold readAttrs
+      have e1 : p.before ++ (p.tok ++ p.after) ++ 44 :: (body ++ 41 :: (sp ++ 59 :: rest)) =
+          p.before ++ c0 :: (u0 ++ (p.after ++ 44 :: (body ++ 41 :: (sp ++ 59 :: rest)))) := by rw [htok]; simp
+      rw [e1, readTokenSeparator_seps p.before hbef l c0 _ sk hc0 h47 h92]
+      have e2 : c0 :: (u0 ++ (p.after ++ 44 :: (body ++ 41 :: (sp ++ 59 :: rest)))) =
+          p.tok ++ (p.after ++ 44 :: (body ++ 41 :: (sp ++ 59 :: rest))) := by rw [htok]; simp
+      rw [e2]
+      simp only [hred, Bool.false_eq_true, if_false, hr, bind, Except.bind, pure, Except.pure]
+      rw [shiftInto_good c _ 44 _ sk' (by decide)]
+      simp only [e3, e4, Bool.false_eq_true, if_false]
+      rw [C03_too_many_parameters_confined env strict hk body hb sp hsp _ 44 (by decide) _ rest sk']
+      simp [accum, aaccum, htok]
+    | cons q2 qs' =>
+      obtain ⟨sk1, hsk1, hr⟩ := hread (p.before.reverse ++ l) sk 44
+        (renderOpen ((q2 :: qs').map (·.1)) ++ 44 :: (body ++ 41 :: (sp ++ 59 :: rest))) (Or.inl rfl)
+      obtain ⟨sk', hsk', hrec⟩ := ih (by simp) (fun x hx => hok x (by simp [hx]))
+        (if sev.toInt ≤ Sev.usermsg.toInt then err.greater sev else err)
+        (44 :: (p.after.reverse ++ (p.tok.reverse ++ (p.before.reverse ++ l)))) 44 sk1 rest
+      refine ⟨sk', skflag_trans hsk1 hsk', ?_⟩
+      simp only [List.map_cons, renderOpen] at hrec ⊢
+      unfold readAttrs
+      have e1 : p.before ++ (p.tok ++ (p.after ++ 44 :: renderOpen (q2.1 :: qs'.map (·.1)))) ++ 44 :: (body ++ 41 :: (sp ++ 59 :: rest)) =
+          p.before ++ c0 :: (u0 ++ (p.after ++ 44 :: (renderOpen (q2.1 :: qs'.map (·.1)) ++ 44 :: (body ++ 41 :: (sp ++ 59 :: rest))))) := by
+        rw [htok]; simp
+      rw [e1, readTokenSeparator_seps p.before hbef l c0 _ sk hc0 h47 h92]
+      have e2 : c0 :: (u0 ++ (p.after ++ 44 :: (renderOpen (q2.1 :: qs'.map (·.1)) ++ 44 :: (body ++ 41 :: (sp ++ 59 :: rest))))) =
+          p.tok ++ (p.after ++ 44 :: (renderOpen (q2.1 :: qs'.map (·.1)) ++ 44 :: (body ++ 41 :: (sp ++ 59 :: rest)))) := by rw [htok]; simp
+      rw [e2]
+      simp only [List.map_cons] at hr
+      simp only [hred, Bool.false_eq_true, if_false, hr, bind, Except.bind, pure, Except.pure]
+      rw [shiftInto_good c _ 44 _ sk1 (by decide)]
+      simp only [e3, e4, Bool.false_eq_true, if_false]
+      rw [hrec]
+      simp [htok, accum, aaccum]
+
+theorem renderOpen_cons {F} (p : Param F) (qs : List (Param F)) :
+    renderOpen (p :: qs) = p.before ++ renderOpen ({ p with before := [] } :: qs) := by
+  cases qs <;> simp [renderOpen]
+
+/-- the parameter list of a record with one parameter more than `ps0` has entries -/
+theorem renderParams_snoc {F} (ps0 : List (Param F)) (hne : ps0 ≠ []) (ex : Param F) :
+    renderParams (ps0 ++ [ex]) = renderOpen ps0 ++ 44 :: (ex.before ++ (ex.tok ++ (ex.after ++ [41]))) := by
+  induction ps0 with
+  | nil => exact absurd rfl hne
+  | cons p t ih =>
+    cases t with
+    | nil => simp [renderParams, renderOpen]
+    | cons q t' =>
+      have := ih (by simp)
+      simp only [List.cons_append] at this ⊢
+      simp only [renderParams, renderOpen, this, List.append_assoc, List.cons_append]
+
+/-- `SDAI_Application_instance::STEPread` on `( p₁ , … , pₙ , more )` for an entity with n attributes -/
+theorem instSTEPread_params_extra {F} (env : Env F) (strict : Bool) (hk : env.cfg.recoveryKeepsSemicolon = true)
+    (qs : List (Param F × Sev)) (hne : qs ≠ []) (hok : ∀ q ∈ qs, ParamRd env strict q.1 q.2)
+    (body : List Byte) (hb : ∀ x ∈ body, x ≠ 41 ∧ (env.cfg.recoveryStopsAtSemicolon = true → x ≠ 39 ∧ x ≠ 59))
+    (sp : List Byte) (hsp : sp.all isSpace = true) (l : List Byte) (sk : Bool) (rest : List Byte) :
+    ∃ sk' l', (sk' = sk ∨ sk' = false) ∧
+      instSTEPread env strict (qs.map (·.1.a))
+        (G l (40 :: (renderOpen (qs.map (·.1)) ++ 44 :: (body ++ 41 :: (sp ++ 59 :: rest)))) sk) =
+      .ok ⟨(accum .null (qs.map (·.2))).greater .inputError, qs.map (·.1.v), G l' (59 :: rest) sk', aaccum qs⟩ := by
+  cases qs with
+  | nil => exact absurd rfl hne
+  | cons q qs =>
+    obtain ⟨p, sev⟩ := q
+    obtain ⟨hred, ⟨c0, u0, htok, hc0, h47, h92⟩, hbef, hread⟩ : ParamRd env strict p sev := hok (p, sev) (by simp)
+    let p' : Param F := { p with before := [] }
+    have hok' : ∀ x ∈ (p', sev) :: qs, ParamRd env strict x.1 x.2 := by
+      intro x hx
+      rcases List.mem_cons.mp hx with rfl | hx
+      · exact ⟨hred, ⟨c0, u0, htok, hc0, h47, h92⟩, Seps.blanks [] (by simp), hread⟩
+      · exact hok x (by simp [hx])
+    obtain ⟨sk', hsk, hr⟩ := readAttrs_params_extra env strict hk ((p', sev) :: qs) (by simp) hok' body hb sp hsp
+      .null (p.before.reverse ++ 40 :: l) 40 sk rest
+    refine ⟨sk', sp.reverse ++ 41 :: (body.reverse ++ 44 :: ((renderOpen (p' :: qs.map (·.1))).reverse ++ (p.before.reverse ++ 40 :: l))), hsk, ?_⟩
+    unfold instSTEPread
+    rw [show (G l (40 :: (renderOpen (((p, sev) :: qs).map (·.1)) ++ 44 :: (body ++ 41 :: (sp ++ 59 :: rest)))) sk).ws = _
+      from ws_good0 l 40 _ sk (by decide)]
+    simp only [bind, Except.bind, pure, Except.pure]
+    rw [shiftInto_good 0 l 40 _ sk (by decide)]
+    simp only [bne_self_eq_false, Bool.false_eq_true, if_false, List.map_cons, List.isEmpty_cons]
+    have hhead : ∃ c1 u1, renderOpen (p' :: qs.map (·.1)) ++ 44 :: (body ++ 41 :: (sp ++ 59 :: rest)) = c1 :: u1 ∧
+        isSpace c1 = false ∧ c1 ≠ 47 ∧ c1 ≠ 92 := by
+      cases hq : qs.map (·.1) with
+      | nil => exact ⟨c0, u0 ++ (p.after ++ 44 :: (body ++ 41 :: (sp ++ 59 :: rest))), by simp [renderOpen, p', htok], hc0, h47, h92⟩
+      | cons q qs' =>
+        exact ⟨c0, u0 ++ (p.after ++ 44 :: (renderOpen (q :: qs') ++ 44 :: (body ++ 41 :: (sp ++ 59 :: rest)))),
+          by simp [renderOpen, p', htok], hc0, h47, h92⟩
+    obtain ⟨c1, u1, h1, hc1, h471, h921⟩ := hhead
+    have e1 : renderOpen (p :: qs.map (·.1)) ++ 44 :: (body ++ 41 :: (sp ++ 59 :: rest)) = p.before ++ c1 :: u1 := by
+      rw [renderOpen_cons, List.append_assoc, h1]
+    rw [e1, readTokenSeparator_seps p.before hbef (40 :: l) c1 u1 sk hc1 h471 h921, ← h1]
+    simp only [List.map_cons] at hr
+    have hpa : p'.a = p.a := rfl
+    have hpv : p'.v = p.v := rfl
+    rw [hpa, hpv] at hr
+    rw [hr]
+    rfl
+
 /-- **resynchronisation, `SkipInstance`** (`skipws` off, as in a data section): an instance that is skipped — duplicate id,
     unknown or abstract keyword, missing `=`, not found in pass 2 — is skipped up to and including its `;`, for any text
     without `;`, apostrophe, NUL and `/`; the next instance starts where the scan ends. -/
@@ -599,6 +793,110 @@ def Flawed {F} (env : Env F) (strict : Bool) (x : Step F) : Prop :=
     x.out = { id := x.r.id, parts := [{ name := x.r.name, vals := vals }], state := .incomplete } ∧
     ∀ L rest, ∃ sR asev, instSTEPread env strict e.attrs (G L (40 :: (renderParams x.r.ps ++ x.r.t4 rest)) false) =
       .ok ⟨x.sev, vals, sR, asev⟩ ∧ (readTokenSeparator sR).skipws = false
+
+/-- **too many parameters, record level** (`Flawed` derived): a record `#id = NAME ( p₁ , … , pₙ , extra ) blanks ;` for an
+    entity with n ≥ 1 attributes - every `pᵢ` read where it stands with a known severity (`ParamRd`: conforming values by
+    `C01.covered_rd`, violating ones by the `C03_*_detected` theorems), `extra` any further parameter whose text holds no
+    `)` (and, where the recovery scan ends at a `;`, no apostrophe and no `;`) - is read to INPUT_ERROR or worse, keeps the n
+    values, and satisfies `Flawed`: by `C03_violation_confined_partial` the file fails (exit 1) and every other record is
+    read to the outcome it has on its own. -/
+theorem C03_too_many_parameters_flawed {F} (env : Env F) (strict : Bool) (hk : env.cfg.recoveryKeepsSemicolon = true)
+    (x : Step F) (hlex : x.r.Lex) (hg : Seps x.g) (hscan : ∀ q ∈ x.r.ps, ParamScan q)
+    (qs : List (Param F × Sev)) (hne : qs ≠ []) (hok : ∀ q ∈ qs, ParamRd env strict q.1 q.2) (ex : Param F)
+    (hps : x.r.ps = qs.map (·.1) ++ [ex])
+    (hex : ∀ b ∈ ex.before ++ (ex.tok ++ ex.after), b ≠ 41 ∧ (env.cfg.recoveryStopsAtSemicolon = true → b ≠ 39 ∧ b ≠ 59))
+    (hs4 : x.r.s4.all isSpace = true)
+    (e : EntityD) (hent : env.dict.entity? x.r.name = some e) (hattrs : e.attrs = qs.map (·.1.a))
+    (hsev : x.sev = (accum .null (qs.map (·.2))).greater .inputError)
+    (hout : x.out = { id := x.r.id, parts := [{ name := x.r.name, vals := qs.map (·.1.v) }], state := .incomplete }) :
+    Flawed env strict x := by
+  refine ⟨hlex, hg, hscan, ?_, e, qs.map (·.1.v), hent, hout, ?_⟩
+  · rw [hsev]
+    exact Int.le_trans (greater_le_right _ _) (by decide)
+  · intro L rest
+    obtain ⟨sk', l', hsk, h⟩ := instSTEPread_params_extra env strict hk qs hne hok (ex.before ++ (ex.tok ++ ex.after)) hex
+      x.r.s4 hs4 L false rest
+    have hsk' : sk' = false := by rcases hsk with h | h <;> exact h
+    subst hsk'
+    refine ⟨G l' (59 :: rest) false, aaccum qs, ?_, by rw [readTokenSeparator_skipws]⟩
+    rw [hattrs, hsev, hps, renderParams_snoc (qs.map (·.1)) (by simpa using hne) ex]
+    have e1 : renderOpen (qs.map (·.1)) ++ 44 :: (ex.before ++ (ex.tok ++ (ex.after ++ [41]))) ++ x.r.t4 rest =
+        renderOpen (qs.map (·.1)) ++ 44 :: ((ex.before ++ (ex.tok ++ ex.after)) ++ 41 :: (x.r.s4 ++ 59 :: rest)) := by
+      simp [Rec.t4]
+    rw [e1]
+    simpa [List.map_map, Function.comp_def] using h
+
+/-- `SDAI_Application_instance::STEPread` on `( p₁ , … , pₖ )` for an entity with more than k attributes -/
+theorem instSTEPread_params_short {F} (env : Env F) (strict : Bool) (hcfg : env.cfg.missingCheckEverySecond = false)
+    (qs : List (Param F × Sev)) (hne : qs ≠ []) (hok : ∀ q ∈ qs, ParamRd env strict q.1 q.2)
+    (more : List AttrD) (hmore : ∃ b ∈ more, b.redefining = false) (l : List Byte) (sk : Bool) (rest : List Byte) :
+    ∃ sk', (sk' = sk ∨ sk' = false) ∧
+      instSTEPread env strict (qs.map (·.1.a) ++ more) (G l (40 :: (renderParams (qs.map (·.1)) ++ rest)) sk) =
+      .ok ⟨(accum .null (qs.map (·.2))).greater .warning, qs.map (·.1.v) ++ defaults more,
+           G ((40 :: renderParams (qs.map (·.1))).reverse ++ l) rest sk', aaccum qs⟩ := by
+  cases qs with
+  | nil => exact absurd rfl hne
+  | cons q qs =>
+    obtain ⟨p, sev⟩ := q
+    obtain ⟨hred, ⟨c0, u0, htok, hc0, h47, h92⟩, hbef, hread⟩ : ParamRd env strict p sev := hok (p, sev) (by simp)
+    let p' : Param F := { p with before := [] }
+    have hok' : ∀ x ∈ (p', sev) :: qs, ParamRd env strict x.1 x.2 := by
+      intro x hx
+      rcases List.mem_cons.mp hx with rfl | hx
+      · exact ⟨hred, ⟨c0, u0, htok, hc0, h47, h92⟩, Seps.blanks [] (by simp), hread⟩
+      · exact hok x (by simp [hx])
+    obtain ⟨sk', hsk, hr⟩ := readAttrs_params_short env strict hcfg ((p', sev) :: qs) (by simp) hok' more hmore
+      .null (p.before.reverse ++ 40 :: l) 40 sk rest
+    refine ⟨sk', hsk, ?_⟩
+    unfold instSTEPread
+    rw [show (G l (40 :: (renderParams (((p, sev) :: qs).map (·.1)) ++ rest)) sk).ws = G l (40 :: (renderParams (((p, sev) :: qs).map (·.1)) ++ rest)) sk
+      from ws_good0 l 40 _ sk (by decide)]
+    simp only [bind, Except.bind, pure, Except.pure]
+    rw [shiftInto_good 0 l 40 _ sk (by decide)]
+    simp only [bne_self_eq_false, Bool.false_eq_true, if_false, List.map_cons, List.cons_append, List.isEmpty_cons]
+    have hhead : ∃ c1 u1, renderParams (p' :: qs.map (·.1)) ++ rest = c1 :: u1 ∧ isSpace c1 = false ∧ c1 ≠ 47 ∧ c1 ≠ 92 := by
+      cases hq : qs.map (·.1) with
+      | nil => exact ⟨c0, u0 ++ (p.after ++ 41 :: rest), by simp [renderParams, p', htok], hc0, h47, h92⟩
+      | cons q qs' =>
+        exact ⟨c0, u0 ++ (p.after ++ 44 :: (renderParams (q :: qs') ++ rest)), by simp [renderParams, p', htok], hc0, h47, h92⟩
+    obtain ⟨c1, u1, h1, hc1, h471, h921⟩ := hhead
+    have e1 : renderParams (p :: qs.map (·.1)) ++ rest = p.before ++ c1 :: u1 := by
+      rw [renderParams_cons, List.append_assoc, h1]
+    rw [e1, readTokenSeparator_seps p.before hbef (40 :: l) c1 u1 sk hc1 h471 h921, ← h1]
+    simp only [List.map_cons, List.cons_append] at hr
+    have hpa : p'.a = p.a := rfl
+    have hpv : p'.v = p.v := rfl
+    rw [hpa, hpv] at hr
+    rw [hr]
+    simp [renderParams_cons p (qs.map (·.1))]
+    exact ⟨rfl, rfl⟩
+
+/-- **too few parameters, record level** (`Flawed` derived): a record `#id = NAME ( p₁ , … , pₖ ) ;` for an entity with
+    more than k ≥ 1 attributes, one of the missing ones not a redefining one - every `pᵢ` read where it stands with a
+    known severity (`ParamRd`) - is read to WARNING or worse, keeps the k values (the other attributes stay unset) and
+    satisfies `Flawed`: by `C03_violation_confined_partial` the file fails (exit 1) and every other record is read to
+    the outcome it has on its own (source whose look-ahead examines every remaining attribute). -/
+theorem C03_too_few_parameters_flawed {F} (env : Env F) (strict : Bool) (hcfg : env.cfg.missingCheckEverySecond = false)
+    (x : Step F) (hlex : x.r.Lex) (hg : Seps x.g) (hscan : ∀ q ∈ x.r.ps, ParamScan q)
+    (qs : List (Param F × Sev)) (hok : ∀ q ∈ qs, ParamRd env strict q.1 q.2) (hps : x.r.ps = qs.map (·.1))
+    (more : List AttrD) (hmore : ∃ b ∈ more, b.redefining = false)
+    (e : EntityD) (hent : env.dict.entity? x.r.name = some e) (hattrs : e.attrs = qs.map (·.1.a) ++ more)
+    (hsev : x.sev = (accum .null (qs.map (·.2))).greater .warning)
+    (hout : x.out = { id := x.r.id, parts := [{ name := x.r.name, vals := qs.map (·.1.v) ++ defaults more }], state := .incomplete }) :
+    Flawed env strict x := by
+  have hne : qs ≠ [] := by
+    intro h; rw [h] at hps; exact hlex.pne (by simpa using hps)
+  refine ⟨hlex, hg, hscan, ?_, e, qs.map (·.1.v) ++ defaults more, hent, hout, ?_⟩
+  · rw [hsev]
+    exact greater_le_right _ _
+  · intro L rest
+    obtain ⟨sk', hsk, h⟩ := instSTEPread_params_short env strict hcfg qs hne hok more hmore L false (x.r.t4 rest)
+    have hsk' : sk' = false := by rcases hsk with h | h <;> exact h
+    subst hsk'
+    refine ⟨G ((40 :: renderParams (qs.map (·.1))).reverse ++ L) (x.r.t4 rest) false, aaccum qs, ?_,
+      by rw [readTokenSeparator_skipws]⟩
+    rw [hattrs, hsev, hps]
+    exact h
 
 /-- parameters read without a message leave the record without one -/
 theorem accum_null (sevs : List Sev) (h : ∀ s ∈ sevs, s = .null) : accum .null sevs = .null := by
